@@ -97,7 +97,7 @@ def run_job(binary, job, tier, seed, shard, nshards, shard_dir, timeout):
     out_path = os.path.join(shard_dir, "%s.%d.json" % (test, shard))
     env = dict(ENV)
     rseed = seed * 1000003 + shard * 7919 + job["idx"] * 101 + 1
-    env.update({"VERIF_TIER": tier, "VERIF_SEED": str(seed), "VERIF_SHARD": str(shard),
+    env.update({"VERIF_TIER": tier, "VERIF_SEED": str(seed), "VERIF_SHARD": str(shard), "VERIF_PROPERTY": job.get("property", ""),
                 "VERIF_NSHARDS": str(nshards), "VERIF_SHARD_OUT": out_path, "VERIF_RAPID_SEED": str(rseed)})
     cmd = [binary, "-test.run", "^%s$" % test, "-test.timeout", "0", "-test.v"]
     if checks is not None:
@@ -199,6 +199,7 @@ def check(pid, tier):
     for idx, j in enumerate(PLAN[pid]):
         j = dict(j)
         j["idx"] = idx
+        j["property"] = pid
         j.setdefault("test", j.get("fuzz"))
         if j.get("tiers") and tier not in j["tiers"]:
             continue
@@ -224,6 +225,29 @@ def check(pid, tier):
     violations = set()
     known = []
     infra = []
+    # suspected hangs: confirm by re-running exactly that input twice in a child with a time limit
+    suspects = set()
+    for r in results:
+        for line in r["out"].splitlines():
+            if line.startswith("HANG-SUSPECT ") and "replay=" in line:
+                suspects.add(line.split("replay=")[1].split()[0])
+    for path in sorted(suspects):
+        confirmed = 0
+        for attempt in range(2):
+            env = dict(ENV)
+            env["VERIF_REPLAY"] = path
+            try:
+                q = subprocess.run([binary, "-test.run", "^TestReplay$", "-test.timeout", "120s"], cwd=HARNESS, env=env,
+                                   stdout=subprocess.PIPE, stderr=subprocess.STDOUT, text=True, timeout=90)
+                if "VIOLATION " in q.stdout:
+                    confirmed += 1
+            except subprocess.TimeoutExpired:
+                confirmed += 1
+        if confirmed == 2:
+            violations.add("VIOLATION property=%s replay=%s" % (pid, path))
+            log("confirmed twice in a fresh process: the compilation of the saved input does not terminate (or exhausts memory)")
+        else:
+            infra.append("suspected hang %s did not reproduce (%d/2)" % (path, confirmed))
     for r in results:
         saw_violation = False
         for line in r["out"].splitlines():
@@ -235,6 +259,8 @@ def check(pid, tier):
                     known.append(line.strip())
         if r["timed_out"]:
             infra.append("%s shard %d: timed out after %.0fs (inconclusive)" % (r["test"], r["shard"], r["wall"]))
+        elif r["rc"] == 3 and "HANG-SUSPECT " in r["out"]:
+            pass  # handled above
         elif r["rc"] != 0 and not saw_violation:
             infra.append("%s shard %d: exit %s without a VIOLATION line\n%s" % (r["test"], r["shard"], r["rc"], r["out"][-3000:]))
     for k in known:
